@@ -37,7 +37,60 @@ FILES = ['chython/algorithms/morgan.py', 'chython/algorithms/smiles.py', 'chytho
          'chython/algorithms/isomorphism.py', 'chython/containers/graph.py', 'chython/_functions.py',
          'chython/periodictable/base/element.py',
          # not an anchor of the property: audited because the differential runs found a seed dependence here
-         'chython/algorithms/standardize/reaction.py']
+         'chython/algorithms/standardize/reaction.py',
+         # every other .py file anchored by any of the 20 properties (properties.jsonl), extension round
+         'chython/algorithms/aromatics/_rules.py',
+         'chython/algorithms/aromatics/kekule.py',
+         'chython/algorithms/aromatics/thiele.py',
+         'chython/algorithms/fingerprints/__init__.py',
+         'chython/algorithms/standardize/_charged.py',
+         'chython/algorithms/standardize/_groups.py',
+         'chython/algorithms/standardize/_metal_organics.py',
+         'chython/algorithms/standardize/molecule.py',
+         'chython/algorithms/standardize/resonance.py',
+         'chython/algorithms/standardize/salts.py',
+         'chython/algorithms/stereo.py',
+         'chython/algorithms/tautomers/__init__.py',
+         'chython/algorithms/tautomers/acid_base.py',
+         'chython/algorithms/tautomers/heteroarenes.py',
+         'chython/algorithms/tautomers/keto_enol.py',
+         'chython/containers/__init__.py',
+         'chython/containers/bonds.py',
+         'chython/containers/cgr.py',
+         'chython/containers/molecule.py',
+         'chython/containers/query.py',
+         'chython/containers/reaction.py',
+         'chython/files/MRVrw.py',
+         'chython/files/RDFrw.py',
+         'chython/files/SDFrw.py',
+         'chython/files/_convert.py',
+         'chython/files/_mapping.py',
+         'chython/files/daylight/parser.py',
+         'chython/files/daylight/smarts.py',
+         'chython/files/daylight/smiles.py',
+         'chython/files/daylight/tokenize.py',
+         'chython/files/mdl/emol.py',
+         'chython/files/mdl/erxn.py',
+         'chython/files/mdl/mol.py',
+         'chython/files/mdl/read.py',
+         'chython/files/mdl/rxn.py',
+         'chython/files/mdl/stereo.py',
+         'chython/files/mdl/write.py',
+         'chython/periodictable/__init__.py',
+         'chython/periodictable/base/dynamic.py',
+         'chython/periodictable/base/query.py',
+         'chython/periodictable/groupI.py',
+         'chython/periodictable/groupVIII.py',
+         'chython/periodictable/groupXIV.py',
+         'chython/periodictable/groupXV.py',
+         'chython/periodictable/groupXVI.py',
+         'chython/periodictable/groupXVII.py',
+         'chython/reactor/base.py',
+         'chython/reactor/deprotection.py',
+         'chython/reactor/reactions/__init__.py',
+         'chython/reactor/reactor.py',
+         'chython/reactor/transformer.py',
+         'chython/utils/rdkit.py']
 
 ORDER_FUNCS = {'min', 'max', 'sorted', 'next', 'iter', 'list', 'tuple', 'deque', 'enumerate', 'zip', 'reversed', 'map',
                'filter', 'sum', 'array', 'islice', 'chain', 'product', 'permutations', 'combinations', 'groupby'}
